@@ -71,7 +71,7 @@ private def mk (name : Bytes) (m : Method) (prompt : Bool) (ncmds : Nat) : Task 
     prompt, dir := none, cmds := List.replicate ncmds ⟨[], none⟩ }
 private def pj (ts : List Task) : Proj := { base := [(0, [97])], dirOf := [], dirLen := [], tasks := ts }
 private def w0 : Step := .op (.write 0 [1] 5)
-private def env (n : Nat) : Env := ⟨n, true, none, none⟩
+private def env (n : Nat) : Env := ⟨n, true, none, none, false⟩
 private def run (i n : Nat) : Step := .inv i .run (env n)
 
 /-- a history after which task `i` is skipped although `goodRun` fails -/
@@ -322,7 +322,7 @@ theorem inv_step (hd : KeysDistinct pr) (st : Step) (s : State) (ha : Allowed st
             · rename_i hup
               intro i t h hti hcs hget
               simp only at hget ⊢
-              rw [hcskip hup] at hget
+              rw [hcskip (and_left_true hup)] at hget
               rw [hclog]
               exact hinv i t h hti hcs hget
             · rw [runBody_declined Cfg.fixed H pr j tj e _ hdec]
@@ -364,7 +364,7 @@ theorem inv_step (hd : KeysDistinct pr) (st : Step) (s : State) (ha : Allowed st
           · rename_i hup
             intro i t h hti hcs hget
             simp only at hget ⊢
-            rw [hcskip hup] at hget
+            rw [hcskip (and_left_true hup)] at hget
             rw [hclog]
             exact hinv i t h hti hcs hget
           · obtain ⟨ok, hlog, hok, hfail⟩ :=
@@ -432,7 +432,7 @@ theorem C04_prompt_declined_no_entry (cfg : Cfg) {i : Nat} {t : Task} (ht : pr.t
     (invoke cfg H pr i .run e s).2.exit = .cancelled ∧ (invoke cfg H pr i .run e s).2.ran = [] ∧
     (invoke cfg H pr i .run e s).1.log = s.log := by
   rw [invoke_run cfg H pr ht] at hns ⊢
-  by_cases hup : (isUpToDate H pr t false e.now s).2 = true
+  by_cases hup : ((isUpToDate H pr t false e.now s).2 && !interrupted t e) = true
   · rw [if_pos hup] at hns; cases hns
   · rw [if_neg hup, runBody_declined cfg H pr i t e _ hdec]
     refine ⟨?_, rfl, rfl, ?_⟩
@@ -456,6 +456,55 @@ theorem C04_prompt_declined_next_runs (cfg : Cfg) {i : Nat} {t : Task} (ht : pr.
     rw [sumCheck_result, hnone] at hsum
     simp at hsum
 
+/-! ## A run cancelled by a failing sibling (`Env.cancelled`) -/
+
+/-- **cancelled between the check and the first command**: a task with `status:` commands that runs
+as a dependency next to a sibling which fails while those commands run — they are interrupted, the
+sources checker has ALREADY written the new checksum, the cancelled context refuses the first command
+— goes through `statusOnError` like any failing command: the run exits `failed`, no command started,
+one attempt is logged as NOT ok, and the checksum the check had recorded is gone again (any wiring,
+any state, any hash).  (A tree that returns the context's error before the command loop — without the
+clean-up — keeps the entry: the next run would skip a task whose commands never ran.) -/
+theorem C04_sibling_cancelled_no_entry (cfg : Cfg) {i : Nat} {t : Task} (ht : pr.tasks[i]? = some t) (hcs : Cs t)
+    (e : Env) (s : State) (hcan : e.cancelled = true) (hst : t.status.isEmpty = false) (hcmds : t.cmds ≠ [])
+    (hp : t.prompt = false ∨ e.yes = true) :
+    aget (invoke cfg H pr i .run e s).1.sums (sumKey t) = none ∧
+    (invoke cfg H pr i .run e s).2.exit = .failed ∧ (invoke cfg H pr i .run e s).2.ran = [] ∧
+    (invoke cfg H pr i .run e s).2.skipped = false ∧
+    (invoke cfg H pr i .run e s).1.log = s.log ++ [⟨i, fpNow H pr t s.files, e.now, false⟩] := by
+  have hint : interrupted t e = true := by simp [interrupted, hcan, hst]
+  rw [invoke_run cfg H pr ht]
+  simp only [hint, Bool.not_true, Bool.and_false, Bool.false_eq_true, if_false]
+  have hcond : (t.prompt && !false && !e.yes) = false := by
+    rcases hp with h | h <;> simp [h]
+  obtain ⟨hclog, hcfiles, _, _, _⟩ := isUpToDate_effect H pr t e.now s
+  have hmk := mkdirTask_fields t (isUpToDate H pr t false e.now s).1
+  cases hc : t.cmds with
+  | nil => exact absurd hc hcmds
+  | cons c cs =>
+    unfold runBody
+    simp only [hcond, Bool.false_eq_true, if_false, hc, cmdLoop, hcan, if_true]
+    refine ⟨?_, trivial, trivial, trivial, ?_⟩
+    · simp only [onError_sums, if_pos hcs]; simp
+    · simp only [onError_log]
+      simp [hmk.1, hmk.2.2.1, hclog, hcfiles]
+
+/-- the history of the directed stream — source in place, status file in place, the run is cancelled
+by its sibling — is not bad: the next run is NOT skipped, and `goodRun` is false (the one attempt
+failed) -/
+theorem C04_sibling_cancelled_not_bad :
+    let t : Task := { mk [120] .checksum false 1 with status := [1] }
+    let hist : List Step := [w0, .op (.write 1 [1] 6), .inv 0 .run { env 10 with cancelled := true }]
+    ¬ Bad Cfg.fixed (pj [t]) hist 0 t ∧
+    (invoke Cfg.fixed hId (pj [t]) 0 .run (env 99) (runHist Cfg.fixed hId (pj [t]) hist State.empty).1).2.skipped = false ∧
+    (runHist Cfg.fixed hId (pj [t]) hist State.empty).1.sums = [] ∧
+    goodRun hId (pj [t]) 0 t (runHist Cfg.fixed hId (pj [t]) hist State.empty).1 = false ∧
+    -- … and the same for method timestamp (the marker is removed again)
+    (let tt : Task := { mk [120] .timestamp false 1 with status := [1] }
+     (runHist Cfg.fixed hId (pj [tt]) hist State.empty).1.marks = [] ∧
+     (invoke Cfg.fixed hId (pj [tt]) 0 .run (env 99) (runHist Cfg.fixed hId (pj [tt]) hist State.empty).1).2.skipped = false) := by
+  decide
+
 /-! ## Method timestamp after TS1–TS3: what is true now -/
 
 /-- **a declined prompt leaves no marker** (TS3, analogue of `C04_prompt_declined_no_entry`): a run
@@ -467,7 +516,7 @@ theorem C04_timestamp_declined_no_marker (cfg : Cfg) {i : Nat} {t : Task} (ht : 
     (invoke cfg H pr i .run e s).2.exit = .cancelled ∧ (invoke cfg H pr i .run e s).2.ran = [] ∧
     (invoke cfg H pr i .run e s).1.log = s.log ∧ (invoke cfg H pr i .run e s).1.files = s.files := by
   rw [invoke_run cfg H pr ht] at hns ⊢
-  by_cases hup : (isUpToDate H pr t false e.now s).2 = true
+  by_cases hup : ((isUpToDate H pr t false e.now s).2 && !interrupted t e) = true
   · rw [if_pos hup] at hns; cases hns
   · rw [if_neg hup, runBody_declined cfg H pr i t e _ hdec]
     refine ⟨?_, rfl, rfl, ?_, ?_⟩
@@ -483,7 +532,7 @@ theorem C04_timestamp_failed_no_marker (cfg : Cfg) {i : Nat} {t : Task} (ht : pr
     aget (invoke cfg H pr i m e s).1.marks (tsKey t) = none := by
   rcases hm with rfl | rfl
   · rw [invoke_run cfg H pr ht] at hf ⊢
-    by_cases hup : (isUpToDate H pr t false e.now s).2 = true
+    by_cases hup : ((isUpToDate H pr t false e.now s).2 && !interrupted t e) = true
     · rw [if_pos hup] at hf; cases hf
     · rw [if_neg hup] at hf ⊢
       rw [runBody_failed_marks cfg H pr i t e _ hf, if_pos hts]; simp
@@ -534,7 +583,7 @@ theorem C04_timestamp_uptodate_check_pure (cfg : Cfg) {i : Nat} {t : Task} (ht :
     (hsk : (invoke cfg H pr i .run e s).2.skipped = true) : (invoke cfg H pr i .run e s).1 = s := by
   have hup := run_skipped cfg H pr ht e s hsk
   have hts' := tsUp_of_upToDate H pr hts false e.now s hup
-  rw [invoke_run cfg H pr ht, if_pos hup, isUpToDate_ts H pr hts]
+  rw [invoke_run cfg H pr ht, if_pos (run_skipped_cond cfg H pr ht e s hsk), isUpToDate_ts H pr hts]
   exact tsCheck_upToDate_pure t false e.now s (by rw [tsCheck_result]; exact hts')
 
 /-- a sequence of runs of task `i` -/
@@ -568,7 +617,7 @@ theorem C04_timestamp_marker_is_last_run (cfg : Cfg) {i : Nat} {t : Task} (ht : 
     aget (invoke cfg H pr i .run e s).1.marks (tsKey t) = some e.now := by
   have hup : ¬ (isUpToDate H pr t false e.now s).2 = true := fun h => by
     rw [tsUp_of_upToDate H pr hts false e.now s h] at hno; cases hno
-  rw [invoke_run cfg H pr ht, if_neg hup] at h1 h2 ⊢
+  rw [invoke_run cfg H pr ht, if_neg (fun h => hup (and_left_true h))] at h1 h2 ⊢
   rw [runBody_marks_kept cfg H pr i t e _ h1 h2, isUpToDate_ts H pr hts]
   exact tsCheck_stored t e.now s (by rw [tsCheck_result]; exact hno)
 
@@ -707,7 +756,7 @@ theorem invTs_step (hd : TsKeysDistinct pr) {i : Nat} {t : Task} (ht : pr.tasks[
             rw [invoke_run Cfg.fixed H pr htj]
             split
             · rename_i hup
-              have hup' := tsUp_of_upToDate H pr hts false e.now s hup
+              have hup' := tsUp_of_upToDate H pr hts false e.now s (and_left_true hup)
               have hpure : (isUpToDate H pr tj false e.now s).1 = s := by
                 rw [isUpToDate_ts H pr hts]
                 exact tsCheck_upToDate_pure tj false e.now s (by rw [tsCheck_result]; exact hup')
